@@ -1,8 +1,10 @@
 //! svh: the implementation side of every correspondence check.  Always built against /repo.
 mod c04;
 mod c05;
+mod c12;
 mod c18;
 mod common;
+mod stmts;
 mod tree;
 
 fn main() {
@@ -14,6 +16,7 @@ fn main() {
     match args[1].as_str() {
         "c04" => c04::main(&args[2..]),
         "c05" => c05::main(&args[2..]),
+        "c12" => c12::main(&args[2..]),
         "c18" => c18::main(&args[2..]),
         other => {
             eprintln!("svh: unknown subcommand {}", other);
